@@ -229,7 +229,8 @@ pub fn run_history(o: &Opts, _cfg: &GenCfg, prog: &Prog, hist: &[Step], case_see
         .step_bound
         .store(4 * 200 * (prog.nodes.len() as u64 + 2).pow(2), std::sync::atomic::Ordering::Relaxed);
     let do_fresh = case_seed % 8 == 0 && !o.retain;
-    let c08 = o.prop == "C08";
+    // C07/C09 churn the same slots: the read-back of held handles applies to them as well
+    let c08 = matches!(o.prop.as_str(), "C08" | "C07" | "C09");
     runner
         .ctx
         .keep_handles
